@@ -237,6 +237,32 @@ def locals_parse(F, res):
         res.ok('parse/locals', {'parser': 'parse_local_functions', 'rule': 'locals.add -> push_local(function id, that local), params first'})
     else:
         res.error('parse_local_functions: no world creating locals')
+    # the parameter locals handed to the body parser (they become LocalFunction.args, whose positions are the emitted
+    # parameter indices) are the locals created for the type's params, one each, in the type's order
+    bad = None
+    n = 0
+    for w in ws:
+        for e in w.trace:
+            if e['kind'] != 'call' or not e['callee'].endswith('LocalFunction::parse'):
+                continue
+            cands = [a for a in e['args'] if isinstance(a, tuple) and a and a[0] == 'seq' and 'params(' in show(a[1])]
+            if len(cands) != 1:
+                bad = 'the body parser is not handed the list of locals created for the parameters'
+                continue
+            a = cands[0]
+            el = show(a[2])
+            if not (re.match(r'^add\(self\.locals, elem\(', el) and show(a[1]) in el):
+                bad = 'the parameter locals are %s, not one new local per parameter type' % el[:80]
+            elif fl.reorders(w, a):
+                bad = 'the list of parameter locals is reordered (%s) before the body is parsed' % fl.reorders(w, a)[0]['callee'].split('::')[-1]
+            else:
+                n += 1
+    if bad:
+        res.bad('parse/params-in-order', 'parse_local_functions: ' + bad + ': parameter i of the function would no longer be local i')
+    elif n:
+        res.ok('parse/params-in-order', {'args': 'seq[locals.add(ty) | ty in params(type)] in order'})
+    else:
+        res.error('parse_local_functions: no call of the body parser found')
 
 
 def map_append_only(F, res):
